@@ -289,7 +289,7 @@ func C12(run *mon.Run) {
 	{
 		shaped := shapedScalars(r)
 		for i, d := range shaped {
-			if run.Quick() && i%4 != int(run.Seed%4+4)%4 && !(d.BitLen() >= 126 && d.BitLen() <= 138) {
+			if run.Quick() && i%4 != int(run.Seed%4+4)%4 && !(d.BitLen() >= 126 && d.BitLen() <= 138) && i < len(shaped)-shapedAlways {
 				continue
 			}
 			wg.Add(1)
